@@ -60,6 +60,8 @@ def main():
         if d1.returncode != 0:
             print("   patched demo says:", (d1.stdout + d1.stderr).strip().splitlines()[-3:])
         b = sh(f"{ROOT}/tools/baseline.py {bad}")
+        if "254/254" not in b.stdout:  # timing-sensitive repo tests can flake under load: one retry
+            b = sh(f"{ROOT}/tools/baseline.py {bad}")
         report["baseline"] = b.stdout.strip().splitlines()[0] if b.stdout.strip() else b.stderr[-300:]
         print(report["baseline"])
         results = {}
